@@ -22,6 +22,11 @@ def run(ctx):
     rule_L1_sampler(ctx, {'shell'})
     rule_L3_L4(ctx)
     rule_L1d_transition(ctx)
+    from ..sampler_rules import rule_G6
+    k6 = rule_G6(ctx)      # the exploration boundary is a copy of the counts, not an alias
+    ctx.require(k6 >= 1, 'G6 saw no snapshot assignment (floor 1: shell_n_sample_exp)')
+    from ..sampler_rules import rule_T11
+    rule_T11(ctx)      # every unoccupied shell is removed when exploration ends
     rule_T3(ctx, view=True)
     from ..pathrules import rule_T5
     rule_T5(ctx)      # the loop of run() ends only when every shell has its minimum (success predicate)
